@@ -510,3 +510,5 @@ def run(L, tier):
     members = L.stage(r4_mts, L, repo)
     L.stage(r5_burst_len, L, repo, members)
     L.stage(r6_ownership, L, repo)
+    from pyutil import memo_sound
+    L.stage(memo_sound, L, repo, "C01.R7", ("data_msg", "gsm_shared"))
